@@ -29,6 +29,11 @@ var rules = []*Rule{
 	{ID: "R19", Title: "VERSION-DISPATCH exhaustive", Props: []string{"C17", "C13"}, Run: ruleR19},
 	{ID: "R22", Title: "SEGMENT-TYPESTATE: no use of a segment after its files were removed", Props: []string{"C12", "C01"}, Run: ruleR22},
 	{ID: "R23", Title: "MULTI-DRIVER ACCOUNTING: a round's deletions are reported", Props: []string{"C12"}, Run: ruleR23},
+	{ID: "R17", Title: "OFFSET-ASSIGNMENT", Props: []string{"C02"}, Run: ruleR17},
+	{ID: "R5", Title: "INUSE: the unload refcount protocol", Props: []string{"C08"}, Run: ruleR5},
+	{ID: "R18", Title: "SNAPSHOT-REVALIDATION", Props: []string{"C08", "C12"}, Run: ruleR18},
+	{ID: "R20", Title: "READER-LIFETIME: destructive segment operations exclude readers", Props: []string{"C08"}, Run: ruleR20},
+	{ID: "R21", Title: "HEAD-SCAN-BOUND", Props: []string{"C08"}, Run: ruleR21},
 	{ID: "R4", Title: "LOCK-ORDER: acyclic acquisition graph, no re-acquisition", Props: []string{"C08"}, Run: ruleR4},
 }
 
